@@ -117,6 +117,8 @@ func main() {
 		runC01()
 	case "c20":
 		runC20()
+	case "urls":
+		runURLs()
 	default:
 		fmt.Fprintln(os.Stderr, "unknown property", cmd)
 		os.Exit(2)
